@@ -19,7 +19,7 @@ TInit == Init /\ l = 1 /\ bad = 0 /\ TLCSet(1, {}) /\ stats = [feeds |-> 0, requ
                                       errors |-> 0, closed |-> 0, nontrivial |-> 0]
 
 Reasons(e) ==
-  IF e.ev = "feed" THEN FeedReasons(e.class, e.outcome, e.stateKept)
+  IF e.ev = "feed" THEN FeedReasons(e.class, e.outcome, e.stateKept, e.alive)
   ELSE IF e.ev = "request" THEN RequestReasons(e.class, e.outcome, e.status, e.alive)
   ELSE {"unknown-event"}
 
